@@ -257,8 +257,9 @@ class GFA:
     def remove_edge(self, edge):
         n1, side1, n2, side2, overlap = edge
 
-        if edge in self.edge_tags:
-            del self.edge_tags[edge]
+        # edge tags are stored from the end the link was declared at, without the overlap
+        self.edge_tags.pop((n1, side1, n2, side2), None)
+        self.edge_tags.pop((n2, side2, n1, side1), None)
 
         if side1 == 0:
             self.nodes[n1].remove_from_start(n2, side2, overlap)
